@@ -49,6 +49,8 @@ def plant(rng, ty, value):
 
 def run(ctx):
     rng = ctx.rng
+    from gen.util import json_lexical_corpus
+    ctx.json_lexical(json_lexical_corpus(rng, 120 if ctx.tier != 'thorough' else 1200))
     prims.check(ctx, ["keccak"])
     thorough = ctx.tier == "thorough"
     cases = []  # (document, conforming?, cls)
